@@ -92,6 +92,7 @@ func checkC05(w *World, r *Report) {
 	checkLookaround(w, r)
 	checkScannerProgress(w, r)
 	checkCountersAdvance(w, r)
+	checkRuneIndexBounds(w, r)
 	checkOffsetProvenance(w, r, reach)
 
 	// R05.7
